@@ -1,12 +1,19 @@
-package delivery
+package channelappend
 
 // deliversim: concurrent world for property C31 (online delivery preserves
 // per-channel order and recipient coverage).
 //
 // One run = one synctest bubble with 1-3 real delivery.Runtime instances (one
-// per simulated node, 1-4 plan workers, small queues) wired to simulated
-// ports. Every port call parks at the scheduler:
+// per simulated node, 1-4 plan workers, small queues). Messages are handed to
+// the REAL recipient dispatch code of this package (recipient.go: direct
+// recipient sets, paged large-channel subscribers, subscriber snapshots,
+// message-scoped UIDs) with small recipient batch sizes, so one message is
+// normalised, grouped by exact authority target and split into several
+// Recipient Delivery Plans which the producer enqueues into the real runtime
+// while its workers are busy or parked. Every port call parks at the scheduler:
 //
+//   SUBS  subscriber page read of the producer (page / error)
+//   ENQ   the producer's enqueue of one plan (proceed / short admission deadline)
 //   PRES  presence resolver (answer: online routes / none / stale routes /
 //         target error / short result / panic)
 //   REQ   owner push to another node (deliver / drop / hold past deadline / panic)
@@ -19,7 +26,10 @@ package delivery
 // order oracle runs at that instant. All other accounting is by commutative
 // counters that port goroutines bump under a lock and the scheduler checks at
 // quiescence, so the trace does not depend on goroutine interleaving inside a
-// step.
+// step. Coverage is stated per committed message: the recipient rows of a
+// message (after the producer's documented normalisation) must be exactly the
+// rows Online Delivery resolves, and each of them is pushed to its resolved
+// routes or reported offline once.
 
 import (
 	"context"
@@ -33,8 +43,8 @@ import (
 	"time"
 
 	"github.com/WuKongIM/WuKongIM/internal/contracts/authority"
-	channelappendcontract "github.com/WuKongIM/WuKongIM/internal/contracts/channelappend"
 	"github.com/WuKongIM/WuKongIM/internal/contracts/onlinedelivery"
+	rd "github.com/WuKongIM/WuKongIM/internal/runtime/delivery"
 	"github.com/WuKongIM/WuKongIM/internal/verifsim/simkit"
 	goruntimeregistry "github.com/WuKongIM/WuKongIM/pkg/goroutine"
 )
@@ -43,16 +53,18 @@ func TestVerifSimDeliver(t *testing.T) {
 	simkit.Main(t, simkit.Engine{
 		Name:  "deliversim",
 		Props: map[string]simkit.PropFunc{"C31": runDeliverSim},
-		Real: []string{"delivery.Runtime on every node (admission, channel-sharded ordered plan queue, plan workers, presence/offline/owner grouping, bounded owner concurrency, exact-route retry loop, PushOwner owner-local reserve-write-finish transaction, Stop/Quiesce/Start lifecycle)",
+		Real: []string{"channelappend recipient dispatch (recipient.go: normalisation, authority resolution and grouping, bounded plan packing, paged / snapshot / message-scoped recipient selection, plan enqueue)",
+			"delivery.Runtime on every node (admission, channel-sharded ordered plan queue, plan workers, presence/offline/owner grouping, bounded owner concurrency, exact-route retry loop, PushOwner owner-local reserve-write-finish transaction, Stop/Quiesce/Start lifecycle)",
 			"delivery.AckTracker behind the runtime", "goroutine registry", "timers via synctest fake clock"},
-		Stub: []string{"plan producer (per-channel sequential enqueuer; plans shaped like channelappend's recipient dispatch: exact-target groups, duplicate rows, one message split over several plans)",
+		Stub: []string{"post-commit caller (one sequential dispatcher per channel)", "subscriber source", "recipient authority resolver",
 			"presence resolver", "node-to-node owner push transport (in-process call into the target runtime's PushOwner under the caller's context)", "session writer and session directory", "offline observer", "clients sending RECVACK / closing sessions"},
-		Rule: "One run = 1-3 nodes, 1-4 channels each produced in sequence order by one source node, 3-14 messages split into plans, tape-chosen port outcomes and lifecycle actions. " +
-			"Non-trivial = at least one accepted session write AND (at least one fault fired OR two plans were in flight at the same time).",
+		Rule: "One run = 1-3 nodes, 1-4 channels each dispatched in sequence order by one source node, 3-12 messages whose recipient rows (1 to ~2.5 x the recipient batch size, duplicates included) are split by the real producer into plans, tape-chosen port outcomes and lifecycle actions. " +
+			"Non-trivial = at least one accepted session write AND (at least one fault fired OR two plans were in flight at the same time OR a message was split into several plans).",
 		Assumptions: []string{"testing/synctest fake clock and quiescence semantics (go1.26.8)",
 			"an owner push that the caller abandoned (deadline, cancellation) never reaches the owner later: late delivery of timed-out RPCs, which would legitimately reorder, is not modelled",
-			"each channel has one producing node that enqueues its plans one after another",
-			"a UID belongs to one authority target within a plan",
+			"each channel has one dispatching node that handles its committed messages one after another",
+			"a UID resolves to one authority target within a message",
+			"events of a message observed at the ports are attributed to the plan of that message whose presence call came last (plans of one channel are processed one at a time)",
 			"scheduling inside one simulator step is the Go runtime's"},
 	})
 }
@@ -80,12 +92,20 @@ const (
 
 	dsOffDone  = 0
 	dsOffPanic = 1
+
+	dsEnqGo    = 0
+	dsEnqShort = 1
+
+	dsSubsOK  = 0
+	dsSubsErr = 1
 )
 
 var (
 	errDsNet      = errors.New("sim: owner push transport failure")
 	errDsPresence = errors.New("sim: presence target failure")
 	errDsWrite    = errors.New("sim: session write failure")
+	errDsSubs     = errors.New("sim: subscriber page failure")
+	errDsAuth     = errors.New("sim: recipient authority lookup failure")
 )
 
 type dsCfg struct {
@@ -96,6 +116,7 @@ type dsCfg struct {
 	Chans      int
 	Msgs       int
 	Batch      int
+	PageSize   int
 	OwnerBatch int
 	OwnerConc  int
 	RetryMax   int
@@ -111,10 +132,12 @@ type dsCfg struct {
 	FLifecycle bool
 	FChurn     bool
 	FEnqTO     bool
+	FProducer  bool
 	OfflineObs bool
 	Transient  int
 	DupBias    int
 	MultiSrc   bool
+	BatchAuth  bool
 }
 
 func dsDrawCfg(r *simkit.Run) dsCfg {
@@ -123,10 +146,11 @@ func dsDrawCfg(r *simkit.Run) dsCfg {
 	c.N = 1 + tp.Weighted([]int{2, 3, 2})
 	c.Workers = 1 + tp.Intn(4)
 	c.Queue = 1 + tp.Intn(4)
-	c.Users = 2 + tp.Intn(4)
+	c.Users = 2 + tp.Intn(7)
 	c.Chans = 1 + tp.Intn(4)
-	c.Msgs = 3 + tp.Intn(12)
+	c.Msgs = 3 + tp.Intn(10)
 	c.Batch = 1 + tp.Intn(4)
+	c.PageSize = 1 + tp.Intn(4)
 	c.OwnerBatch = []int{256, 1, 2, 3}[tp.Intn(4)]
 	c.OwnerConc = 1 + tp.Intn(3)
 	c.RetryMax = 1 + tp.Intn(4)
@@ -135,6 +159,7 @@ func dsDrawCfg(r *simkit.Run) dsCfg {
 	c.Transient = tp.Intn(3)
 	c.DupBias = tp.Intn(3)
 	c.MultiSrc = tp.Intn(2) == 0
+	c.BatchAuth = tp.Intn(2) == 0
 	c.PlanTO = 5 * time.Second
 	if !c.NoFaults {
 		c.FPresErr = tp.Intn(2) == 0
@@ -145,6 +170,7 @@ func dsDrawCfg(r *simkit.Run) dsCfg {
 		c.FLifecycle = tp.Intn(3) == 0
 		c.FChurn = tp.Intn(3) == 0
 		c.FEnqTO = tp.Intn(4) == 0
+		c.FProducer = tp.Intn(4) == 0
 		if tp.Intn(3) == 0 {
 			c.PlanTO = 40 * time.Millisecond
 			c.FHold = true
@@ -185,6 +211,26 @@ func dsRouteKeys(rs []onlinedelivery.Route) string {
 	return "[" + strings.Join(ks, ",") + "]"
 }
 
+func dsTargetRows(ts []onlinedelivery.RecipientTargetBatch) string {
+	parts := []string{}
+	for _, tg := range ts {
+		us := []string{}
+		for _, rc := range tg.Recipients {
+			us = append(us, rc.UID)
+		}
+		parts = append(parts, fmt.Sprintf("t%d%v", tg.Target.HashSlot, us))
+	}
+	return strings.Join(parts, "")
+}
+
+func dsCloneTargets(ts []onlinedelivery.RecipientTargetBatch) []onlinedelivery.RecipientTargetBatch {
+	out := make([]onlinedelivery.RecipientTargetBatch, len(ts))
+	for i, tg := range ts {
+		out[i] = tg.Clone()
+	}
+	return out
+}
+
 type dsRouteAcct struct {
 	route      onlinedelivery.Route
 	mult       int // times presence resolved this exact route for the plan (not suppressed)
@@ -199,18 +245,42 @@ type dsRouteAcct struct {
 	unknown    bool // never resolved by presence for this plan
 }
 
-type dsPlan struct {
-	id      int
+// dsMsg is one committed message handed to the real recipient dispatch.
+type dsMsg struct {
+	idx     int
 	chIdx   int
 	src     uint64
-	gen     int
-	plan    onlinedelivery.RecipientDeliveryPlan
+	ev      CommittedEnvelope
 	durable bool
 	seq     uint64
 	msgID   uint64
-	enq     int // 0 not issued, 1 in flight, 2 accepted, 3 rejected
+	entry   int            // 0 direct set, 1 paged large channel, 2 subscriber snapshot, 3 message-scoped uids
+	raw     []Recipient    // rows as the caller supplied them
+	rows    map[string]int // normalised recipient rows the message must cover (uid -> multiplicity)
+	authErr string         // uid whose authority lookup fails ("" = none)
 
+	plans       []*dsPlan // in the order the producer submitted them
+	cur         *dsPlan   // plan whose presence call came last
+	dispatched  bool
+	dispatchErr error
+	presRows    map[string]int // rows Online Delivery resolved (presence arrival snapshots)
+	bad         map[string]bool
+	finalLogged bool
+}
+
+type dsPlan struct {
+	msg  *dsMsg
+	ord  int
+	src  uint64
+	gen  int
+	snap []onlinedelivery.RecipientTargetBatch // deep copy taken when the producer submitted the plan
+	mode onlinedelivery.Mode
+	enq  int // 1 submitted, 2 accepted, 3 rejected
+	err  error
+
+	enqLogged bool
 	presCalls int
+	seen      []onlinedelivery.RecipientTargetBatch // deep copy of what presence was asked
 	answered  bool
 	altered   bool
 	routes    map[string]*dsRouteAcct
@@ -223,32 +293,34 @@ type dsPlan struct {
 	endedObserved bool
 	deadline      bool
 	relaxed       bool
-	finalChecked  bool
 }
+
+func (p *dsPlan) name() string { return fmt.Sprintf("m%d#%d", p.msg.idx, p.ord) }
 
 type dsCall struct {
 	kind   string
 	node   uint64
 	to     uint64
+	msg    *dsMsg
 	plan   *dsPlan
 	route  onlinedelivery.Route
 	routes []onlinedelivery.Route
-	answer []TargetPresenceResult
+	answer []rd.TargetPresenceResult
 	local  bool
 }
 
 type dsOp struct {
 	id      int
-	kind    string // enq, stop, quiesce
+	kind    string // dispatch, stop, quiesce
 	node    *dsNode
-	plan    *dsPlan
+	msg     *dsMsg
 	err     error
 	timeout time.Duration
 }
 
 type dsNode struct {
 	id        uint64
-	rt        *Runtime
+	rt        *rd.Runtime
 	gen       int
 	state     int // 0 stopped, 1 open, 2 closing (stop), 3 quiescing
 	lifeOp    *dsOp
@@ -256,18 +328,18 @@ type dsNode struct {
 	// acceptedTotal counts admitted plans over all generations; the runtime
 	// emits exactly one terminal observation per admitted plan
 	acceptedTotal int
-	results       map[ObservationResult]int
-	genRelax  bool
+	results       map[rd.ObservationResult]int
+	genRelax      bool
+	depth         int
+	running       int
 }
 
 type dsChan struct {
-	idx   int
-	id    string
-	src   *dsNode
-	seq   uint64
-	queue []*dsPlan // plans of the current message still to enqueue
-	busy  bool
-	msgs  int
+	idx  int
+	id   string
+	src  *dsNode
+	seq  uint64
+	busy bool
 }
 
 type dsAck struct {
@@ -287,7 +359,7 @@ type dsWorld struct {
 	users    []string
 	sessions []*dsSession
 	chans    []*dsChan
-	plans    []*dsPlan
+	msgs     []*dsMsg
 	msgsLeft int
 	nextMsg  uint64
 	nextOp   int
@@ -297,13 +369,13 @@ type dsWorld struct {
 	inflight  map[int]*dsOp
 	orphans   map[string]bool // observations that fit no plan
 
-	seen      map[*simkit.Parked]bool
-	lastSeq   map[string]uint64
-	unacked   []dsAck
-	final     bool
-	accepted  int
-	overlap   bool
-	closedAll bool
+	seen     map[*simkit.Parked]bool
+	lastSeq  map[string]uint64
+	unacked  []dsAck
+	final    bool
+	accepted int
+	overlap  bool
+	split    bool
 	// remaining fault budgets (a run stays mostly about delivering plans)
 	lifeLeft  int
 	churnLeft int
@@ -316,24 +388,38 @@ type dsObserver struct {
 	n *dsNode
 }
 
-func (o *dsObserver) ObservePlanAdmission(PlanAdmissionEvent)    {}
-func (o *dsObserver) SetRuntimePressure(RuntimePressureEvent)    {}
-func (o *dsObserver) ObserveOwnerPush(OwnerPushEvent)            {}
-func (o *dsObserver) ObservePlanTerminal(event PlanTerminalEvent) {
+func (o *dsObserver) ObservePlanAdmission(rd.PlanAdmissionEvent) {}
+func (o *dsObserver) ObserveOwnerPush(rd.OwnerPushEvent)         {}
+func (o *dsObserver) SetRuntimePressure(ev rd.RuntimePressureEvent) {
+	o.w.mu.Lock()
+	o.n.depth, o.n.running = ev.QueueDepth, ev.Inflight
+	o.w.mu.Unlock()
+}
+func (o *dsObserver) ObservePlanTerminal(event rd.PlanTerminalEvent) {
 	o.w.mu.Lock()
 	o.n.terminals++
 	o.n.results[event.Result]++
 	o.w.mu.Unlock()
 }
 
-// ---- plan lookup --------------------------------------------------------------
+// ---- lookup and accounting ----------------------------------------------------
 
-func (w *dsWorld) planByTag(tag string) *dsPlan {
+func (w *dsWorld) msgByTag(tag string) *dsMsg {
 	var id int
-	if _, err := fmt.Sscanf(tag, "p%d", &id); err != nil || id < 0 || id >= len(w.plans) {
+	if _, err := fmt.Sscanf(tag, "m%d", &id); err != nil || id < 0 || id >= len(w.msgs) {
 		return nil
 	}
-	return w.plans[id]
+	return w.msgs[id]
+}
+
+// planOfEvent attributes a port observation to the plan of its message that
+// is being processed (caller holds w.mu).
+func (w *dsWorld) planOfEventLocked(ev CommittedEnvelope) *dsPlan {
+	m := w.msgByTag(ev.Topic)
+	if m == nil {
+		return nil
+	}
+	return m.cur
 }
 
 func (w *dsWorld) acct(p *dsPlan, r onlinedelivery.Route) *dsRouteAcct {
@@ -376,40 +462,204 @@ func (w *dsWorld) orphan(format string, args ...any) {
 	w.mu.Unlock()
 }
 
-// ---- ports ----------------------------------------------------------------------
+func dsSameEvent(a, b CommittedEnvelope) bool {
+	return a.MessageID == b.MessageID && a.MessageSeq == b.MessageSeq && a.ChannelID == b.ChannelID && a.ChannelType == b.ChannelType &&
+		a.FromUID == b.FromUID && a.SenderNodeID == b.SenderNodeID && a.SenderSessionID == b.SenderSessionID && a.Topic == b.Topic
+}
+
+// ---- producer-side ports ---------------------------------------------------------
+
+type dsAuthResolver struct {
+	w *dsWorld
+	m *dsMsg
+}
+
+func (a *dsAuthResolver) target(uid string) (RecipientAuthorityTarget, error) {
+	if uid == a.m.authErr {
+		return RecipientAuthorityTarget{}, errDsAuth
+	}
+	h := 0
+	for i := 0; i < len(uid); i++ {
+		h = h*31 + int(uid[i])
+	}
+	slot := uint16(h % 3)
+	return authority.Target{HashSlot: slot, SlotID: uint32(slot) + 1, LeaderNodeID: uint64(1 + int(slot)%a.w.cfg.N), LeaderTerm: 3, ConfigEpoch: 2, RouteRevision: 9,
+		AuthorityEpoch: uint64(a.m.idx + 1)}, nil
+}
+
+func (a *dsAuthResolver) ResolveRecipientAuthority(_ context.Context, uid string) (RecipientAuthorityTarget, error) {
+	return a.target(uid)
+}
+
+type dsBatchAuthResolver struct{ *dsAuthResolver }
+
+func (a dsBatchAuthResolver) ResolveRecipientAuthorities(_ context.Context, uids []string) ([]RecipientAuthorityResult, error) {
+	out := make([]RecipientAuthorityResult, len(uids))
+	for i, u := range uids {
+		out[i].Target, out[i].Err = a.target(u)
+	}
+	return out, nil
+}
+
+type dsSubscribers struct {
+	w *dsWorld
+	n *dsNode
+	m *dsMsg
+}
+
+func (s *dsSubscribers) NextSubscriberPage(ctx context.Context, req SubscriberPageRequest) (SubscriberPage, error) {
+	start := 0
+	if req.Cursor != "" {
+		fmt.Sscanf(req.Cursor, "c%d", &start)
+	}
+	c := &dsCall{kind: "subs", node: s.n.id, msg: s.m}
+	if d := s.w.w.ParkCtx(ctx.Done(), fmt.Sprintf("SUBS n%d m%d from=%d limit=%d", s.n.id, s.m.idx, start, req.Limit), c, dsCtx); d != dsSubsOK {
+		return SubscriberPage{}, errDsSubs
+	}
+	end := start + req.Limit
+	if req.Limit <= 0 || end > len(s.m.raw) || end < start {
+		end = len(s.m.raw)
+	}
+	if start > len(s.m.raw) {
+		start = len(s.m.raw)
+	}
+	page := SubscriberPage{Recipients: append([]Recipient(nil), s.m.raw[start:end]...), Done: end >= len(s.m.raw)}
+	if !page.Done {
+		page.Cursor = fmt.Sprintf("c%d", end)
+	}
+	return page, nil
+}
+
+// dsEnqueuer stands between the real producer and the real runtime: it keeps
+// a private copy of every plan as submitted and lets the scheduler decide when
+// the enqueue proceeds. The runtime receives the producer's own plan value.
+type dsEnqueuer struct {
+	w *dsWorld
+	n *dsNode
+	m *dsMsg
+}
+
+func (e *dsEnqueuer) EnqueueRecipientDeliveryPlan(ctx context.Context, plan onlinedelivery.RecipientDeliveryPlan) error {
+	w, m := e.w, e.m
+	p := &dsPlan{msg: m, src: e.n.id, snap: dsCloneTargets(plan.Targets), mode: plan.Mode, enq: 1,
+		routes: map[string]*dsRouteAcct{}, expectOff: map[string]bool{}, offGot: map[string]int{}, bad: map[string]bool{}}
+	w.mu.Lock()
+	p.ord = len(m.plans)
+	m.plans = append(m.plans, p)
+	if !dsSameEvent(plan.Event, m.ev) {
+		m.bad[fmt.Sprintf("plan %s carries another event (msg %d seq %d)", p.name(), plan.Event.MessageID, plan.Event.MessageSeq)] = true
+	}
+	if (plan.Mode == onlinedelivery.ModeDurable) != m.durable {
+		m.bad[fmt.Sprintf("plan %s has mode %d for a message with durable=%v", p.name(), plan.Mode, m.durable)] = true
+	}
+	if n := plan.RecipientCount(); n == 0 || n > w.cfg.Batch {
+		m.bad[fmt.Sprintf("plan %s carries %d recipient rows, batch bound %d", p.name(), n, w.cfg.Batch)] = true
+	}
+	w.mu.Unlock()
+	c := &dsCall{kind: "enq", node: e.n.id, msg: m, plan: p}
+	d := w.w.ParkCtx(ctx.Done(), fmt.Sprintf("ENQ n%d %s %s", e.n.id, p.name(), dsTargetRows(p.snap)), c, dsCtx)
+	ectx := ctx
+	switch d {
+	case dsEnqGo:
+	case dsEnqShort:
+		var cancel context.CancelFunc
+		ectx, cancel = context.WithTimeout(ctx, 2*time.Millisecond)
+		defer cancel()
+	default:
+		err := ctx.Err()
+		if err == nil {
+			err = rd.ErrRuntimeClosed
+		}
+		w.mu.Lock()
+		p.enq, p.err = 3, err
+		w.mu.Unlock()
+		return err
+	}
+	err := e.n.rt.EnqueueRecipientDeliveryPlan(ectx, plan)
+	w.mu.Lock()
+	if err == nil {
+		p.enq = 2
+		e.n.acceptedTotal++
+	} else {
+		p.enq, p.err = 3, err
+	}
+	w.mu.Unlock()
+	return err
+}
+
+// ---- runtime-side ports ------------------------------------------------------------
 
 type dsPresence struct {
 	w *dsWorld
 	n *dsNode
 }
 
-func (s *dsPresence) EndpointsByTargets(ctx context.Context, targets []onlinedelivery.RecipientTargetBatch) []TargetPresenceResult {
+func (s *dsPresence) EndpointsByTargets(ctx context.Context, targets []onlinedelivery.RecipientTargetBatch) []rd.TargetPresenceResult {
 	w := s.w
-	fail := func() []TargetPresenceResult {
-		out := make([]TargetPresenceResult, len(targets))
+	fail := func() []rd.TargetPresenceResult {
+		out := make([]rd.TargetPresenceResult, len(targets))
 		for i := range out {
 			out[i].Err = errDsPresence
 		}
 		return out
 	}
-	var p *dsPlan
+	seen := dsCloneTargets(targets)
+	var m *dsMsg
 	if len(targets) > 0 {
-		id := int(targets[0].Target.AuthorityEpoch)
-		if id >= 0 && id < len(w.plans) {
-			p = w.plans[id]
+		if id := int(targets[0].Target.AuthorityEpoch) - 1; id >= 0 && id < len(w.msgs) {
+			m = w.msgs[id]
 		}
 	}
-	if p == nil {
-		w.orphan("presence call on n%d with targets of no known plan", s.n.id)
+	if m == nil {
+		w.orphan("presence call on n%d with targets %s of no known message", s.n.id, dsTargetRows(seen))
 		return fail()
 	}
 	w.mu.Lock()
-	p.presCalls++
-	if p.src != s.n.id {
-		p.bad[fmt.Sprintf("presence for plan p%d resolved on n%d, admitted on n%d", p.id, s.n.id, p.src)] = true
+	// the plan: an admitted, not yet processed plan of this message, by content
+	// first, else the oldest one (plans of one message are processed in order)
+	var p *dsPlan
+	for _, q := range m.plans {
+		if q.enq != 3 && q.presCalls == 0 && reflect.DeepEqual(q.snap, seen) {
+			p = q
+			break
+		}
 	}
-	if !reflect.DeepEqual(targets, p.plan.Targets) {
-		p.altered = true
+	if p == nil {
+		for _, q := range m.plans {
+			if q.enq != 3 && q.presCalls == 0 {
+				p = q
+				break
+			}
+		}
+	}
+	if p == nil {
+		for _, q := range m.plans {
+			if q.enq != 3 && reflect.DeepEqual(q.snap, seen) {
+				p = q
+				break
+			}
+		}
+	}
+	if p == nil {
+		w.mu.Unlock()
+		w.orphan("presence call on n%d for message m%d with targets %s although every admitted plan of the message was already processed", s.n.id, m.idx, dsTargetRows(seen))
+		return fail()
+	}
+	p.presCalls++
+	if p.presCalls == 1 {
+		p.seen = seen
+		m.cur = p
+		for _, tg := range seen {
+			for _, rc := range tg.Recipients {
+				m.presRows[rc.UID]++
+			}
+		}
+		if !reflect.DeepEqual(p.snap, seen) {
+			p.altered = true
+		}
+	}
+	if p.src != s.n.id {
+		p.bad[fmt.Sprintf("presence for plan %s resolved on n%d, admitted on n%d", p.name(), s.n.id, p.src)] = true
 	}
 	w.mu.Unlock()
 	context.AfterFunc(ctx, func() {
@@ -420,8 +670,8 @@ func (s *dsPresence) EndpointsByTargets(ctx context.Context, targets []onlinedel
 		}
 		w.mu.Unlock()
 	})
-	c := &dsCall{kind: "pres", node: s.n.id, plan: p}
-	d := w.w.ParkCtx(ctx.Done(), fmt.Sprintf("PRES n%d p%d", s.n.id, p.id), c, dsCtx)
+	c := &dsCall{kind: "pres", node: s.n.id, msg: m, plan: p}
+	d := w.w.ParkCtx(ctx.Done(), fmt.Sprintf("PRES n%d %s %s", s.n.id, p.name(), dsTargetRows(seen)), c, dsCtx)
 	switch d {
 	case dsPresAnswer:
 		return c.answer
@@ -438,21 +688,22 @@ type dsRemote struct {
 
 func (s *dsRemote) PushOwner(ctx context.Context, push onlinedelivery.OwnerPush) (onlinedelivery.OwnerPushResult, error) {
 	w := s.w
-	p := w.planByTag(push.Event.Topic)
-	if p == nil {
-		w.orphan("owner push from n%d to n%d for an unknown plan tag %q", s.n.id, push.OwnerNodeID, push.Event.Topic)
-		return onlinedelivery.OwnerPushResult{}, errDsNet
-	}
 	routes := append([]onlinedelivery.Route(nil), push.Routes...)
 	w.mu.Lock()
+	p := w.planOfEventLocked(push.Event)
+	if p == nil {
+		w.mu.Unlock()
+		w.orphan("owner push from n%d to n%d %s for event tag %q that belongs to no plan in progress", s.n.id, push.OwnerNodeID, dsRouteKeys(routes), push.Event.Topic)
+		return onlinedelivery.OwnerPushResult{}, errDsNet
+	}
 	if p.src != s.n.id {
-		p.bad[fmt.Sprintf("owner push for plan p%d sent by n%d, admitted on n%d", p.id, s.n.id, p.src)] = true
+		p.bad[fmt.Sprintf("owner push for plan %s sent by n%d, admitted on n%d", p.name(), s.n.id, p.src)] = true
 	}
 	if push.OwnerNodeID == s.n.id {
 		p.bad[fmt.Sprintf("n%d sent a remote owner push to itself", s.n.id)] = true
 	}
-	if push.Event.MessageID != p.msgID || push.Event.MessageSeq != p.plan.Event.MessageSeq || push.Event.ChannelID != p.plan.Event.ChannelID {
-		p.bad[fmt.Sprintf("owner push for plan p%d carries another event (msg %d seq %d)", p.id, push.Event.MessageID, push.Event.MessageSeq)] = true
+	if !dsSameEvent(push.Event, p.msg.ev) {
+		p.bad[fmt.Sprintf("owner push for plan %s carries another event (msg %d seq %d)", p.name(), push.Event.MessageID, push.Event.MessageSeq)] = true
 	}
 	for _, r := range routes {
 		a := w.acct(p, r)
@@ -462,7 +713,7 @@ func (s *dsRemote) PushOwner(ctx context.Context, push onlinedelivery.OwnerPush)
 		}
 	}
 	w.mu.Unlock()
-	key := fmt.Sprintf("REQ n%d->n%d p%d %s", s.n.id, push.OwnerNodeID, p.id, dsRouteKeys(routes))
+	key := fmt.Sprintf("REQ n%d->n%d %s %s", s.n.id, push.OwnerNodeID, p.name(), dsRouteKeys(routes))
 	c := &dsCall{kind: "req", node: s.n.id, to: push.OwnerNodeID, plan: p, routes: routes}
 	switch d := w.w.ParkCtx(ctx.Done(), key, c, dsCtx); d {
 	case dsReqDeliver:
@@ -493,7 +744,7 @@ func (s *dsRemote) PushOwner(ctx context.Context, push onlinedelivery.OwnerPush)
 		sum = fmt.Sprintf("acc=%s retry=%s drop=%s", dsRouteKeys(res.Accepted), dsRouteKeys(res.Retryable), dsRouteKeys(res.Dropped))
 	}
 	c2 := &dsCall{kind: "rsp", node: push.OwnerNodeID, to: s.n.id, plan: p, routes: routes}
-	d2 := w.w.ParkCtx(ctx.Done(), fmt.Sprintf("RSP n%d->n%d p%d %s => %s", push.OwnerNodeID, s.n.id, p.id, dsRouteKeys(routes), sum), c2, dsCtx)
+	d2 := w.w.ParkCtx(ctx.Done(), fmt.Sprintf("RSP n%d->n%d %s %s => %s", push.OwnerNodeID, s.n.id, p.name(), dsRouteKeys(routes), sum), c2, dsCtx)
 	if d2 != dsRspDeliver || err != nil {
 		w.mu.Lock()
 		for _, r := range routes {
@@ -517,16 +768,17 @@ type dsWriter struct {
 	n *dsNode
 }
 
-func (s *dsWriter) WriteSession(ctx context.Context, write LocalSessionWrite) SessionWriteResult {
+func (s *dsWriter) WriteSession(ctx context.Context, write rd.LocalSessionWrite) rd.SessionWriteResult {
 	w := s.w
-	p := w.planByTag(write.Event.Topic)
 	r := write.Route
+	w.mu.Lock()
+	p := w.planOfEventLocked(write.Event)
 	if p == nil {
-		w.orphan("session write on n%d for an unknown plan tag %q route %s", s.n.id, write.Event.Topic, dsRouteKey(r))
-		return SessionWriteResult{Disposition: SessionWriteDropped, Err: errDsWrite}
+		w.mu.Unlock()
+		w.orphan("session write on n%d route %s for event tag %q that belongs to no plan in progress", s.n.id, dsRouteKey(r), write.Event.Topic)
+		return rd.SessionWriteResult{Disposition: rd.SessionWriteDropped, Err: errDsWrite}
 	}
 	local := p.src == s.n.id
-	w.mu.Lock()
 	a := w.acct(p, r)
 	if local {
 		a.attempts++
@@ -536,33 +788,33 @@ func (s *dsWriter) WriteSession(ctx context.Context, write LocalSessionWrite) Se
 	if r.OwnerNodeID != s.n.id {
 		p.bad[fmt.Sprintf("route %s written on n%d", dsRouteKey(r), s.n.id)] = true
 	}
-	if write.Event.MessageID != p.msgID || write.Event.MessageSeq != p.plan.Event.MessageSeq || write.Event.ChannelID != p.plan.Event.ChannelID {
-		p.bad[fmt.Sprintf("session write for plan p%d carries another event (msg %d seq %d)", p.id, write.Event.MessageID, write.Event.MessageSeq)] = true
+	if !dsSameEvent(write.Event, p.msg.ev) {
+		p.bad[fmt.Sprintf("session write for plan %s carries another event (msg %d seq %d)", p.name(), write.Event.MessageID, write.Event.MessageSeq)] = true
 	}
 	w.mu.Unlock()
 	one := []onlinedelivery.Route{r}
-	key := fmt.Sprintf("WRITE n%d p%d m%d q%d %s", s.n.id, p.id, p.msgID, write.Event.MessageSeq, dsRouteKey(r))
+	key := fmt.Sprintf("WRITE n%d %s id%d q%d %s", s.n.id, p.name(), p.msg.msgID, write.Event.MessageSeq, dsRouteKey(r))
 	c := &dsCall{kind: "write", node: s.n.id, plan: p, route: r, local: local}
 	switch d := w.w.ParkCtx(ctx.Done(), key, c, dsCtx); d {
 	case dsWAccept:
-		return SessionWriteResult{Disposition: SessionWriteAccepted}
+		return rd.SessionWriteResult{Disposition: rd.SessionWriteAccepted}
 	case dsWRetry:
-		return SessionWriteResult{Disposition: SessionWriteRetryable, Err: errDsWrite}
+		return rd.SessionWriteResult{Disposition: rd.SessionWriteRetryable, Err: errDsWrite}
 	case dsWHold:
 		<-ctx.Done()
-		return SessionWriteResult{Disposition: SessionWriteRetryable, Err: ctx.Err()}
+		return rd.SessionWriteResult{Disposition: rd.SessionWriteRetryable, Err: ctx.Err()}
 	case dsWPanic:
 		panic("sim: session writer panic")
 	case dsCtx:
 		if local {
 			w.justify(p, one)
 		}
-		return SessionWriteResult{Disposition: SessionWriteRetryable, Err: ctx.Err()}
+		return rd.SessionWriteResult{Disposition: rd.SessionWriteRetryable, Err: ctx.Err()}
 	}
 	if local {
 		w.settled(p, one)
 	}
-	return SessionWriteResult{Disposition: SessionWriteDropped, Err: errDsWrite}
+	return rd.SessionWriteResult{Disposition: rd.SessionWriteDropped, Err: errDsWrite}
 }
 
 type dsOffline struct {
@@ -570,26 +822,27 @@ type dsOffline struct {
 	n *dsNode
 }
 
-func (s *dsOffline) ObserveOfflineRecipients(ctx context.Context, ev OfflineRecipientsEvent) {
+func (s *dsOffline) ObserveOfflineRecipients(ctx context.Context, ev rd.OfflineRecipientsEvent) {
 	w := s.w
-	p := w.planByTag(ev.Event.Topic)
-	if p == nil {
-		w.orphan("offline batch on n%d for an unknown plan tag %q", s.n.id, ev.Event.Topic)
-		return
-	}
 	uids := append([]string(nil), ev.UIDs...)
 	w.mu.Lock()
+	p := w.planOfEventLocked(ev.Event)
+	if p == nil {
+		w.mu.Unlock()
+		w.orphan("offline batch %v on n%d for event tag %q that belongs to no plan in progress", uids, s.n.id, ev.Event.Topic)
+		return
+	}
 	p.offCalls++
 	for _, u := range uids {
 		p.offGot[u]++
 	}
 	if p.src != s.n.id {
-		p.bad[fmt.Sprintf("offline batch for plan p%d reported on n%d, admitted on n%d", p.id, s.n.id, p.src)] = true
+		p.bad[fmt.Sprintf("offline batch for plan %s reported on n%d, admitted on n%d", p.name(), s.n.id, p.src)] = true
 	}
 	w.mu.Unlock()
 	sort.Strings(uids)
 	c := &dsCall{kind: "offl", node: s.n.id, plan: p}
-	if d := w.w.ParkCtx(ctx.Done(), fmt.Sprintf("OFFL n%d p%d %v", s.n.id, p.id, uids), c, dsCtx); d == dsOffPanic {
+	if d := w.w.ParkCtx(ctx.Done(), fmt.Sprintf("OFFL n%d %s %v", s.n.id, p.name(), uids), c, dsCtx); d == dsOffPanic {
 		panic("sim: offline observer panic")
 	}
 }
@@ -599,9 +852,9 @@ func (s *dsOffline) ObserveOfflineRecipients(ctx context.Context, ev OfflineReci
 func runDeliverSim(t *testing.T, r *simkit.Run) {
 	c := dsDrawCfg(r)
 	r.Config = map[string]any{"N": c.N, "workers": c.Workers, "queue": c.Queue, "users": c.Users, "chans": c.Chans, "msgs": c.Msgs,
-		"batch": c.Batch, "owner_batch": c.OwnerBatch, "owner_conc": c.OwnerConc, "retry_max": c.RetryMax, "plan_to_ms": c.PlanTO.Milliseconds(),
+		"batch": c.Batch, "page": c.PageSize, "owner_batch": c.OwnerBatch, "owner_conc": c.OwnerConc, "retry_max": c.RetryMax, "plan_to_ms": c.PlanTO.Milliseconds(),
 		"nofaults": c.NoFaults, "pres_err": c.FPresErr, "stale": c.FStale, "write": c.FWrite, "hold": c.FHold, "panic": c.FPanic, "net": c.FNet,
-		"lifecycle": c.FLifecycle, "churn": c.FChurn, "enq_to": c.FEnqTO, "offline_obs": c.OfflineObs, "ack_ttl_ms": c.AckTTL.Milliseconds()}
+		"lifecycle": c.FLifecycle, "churn": c.FChurn, "enq_to": c.FEnqTO, "producer": c.FProducer, "offline_obs": c.OfflineObs, "ack_ttl_ms": c.AckTTL.Milliseconds(), "batch_auth": c.BatchAuth}
 	simkit.Bubble(t, r, func() {
 		w := &dsWorld{r: r, w: simkit.NewWorld(r), cfg: c, nodes: map[uint64]*dsNode{}, inflight: map[int]*dsOp{}, orphans: map[string]bool{},
 			seen: map[*simkit.Parked]bool{}, lastSeq: map[string]uint64{}, msgsLeft: c.Msgs, nextMsg: 1000}
@@ -612,7 +865,7 @@ func runDeliverSim(t *testing.T, r *simkit.Run) {
 		if r.InfraErr != "" {
 			return
 		}
-		s := &simkit.Scheduler{R: r, MaxSteps: 150 + c.Msgs*90, Collect: w.collect, Invariant: w.sync,
+		s := &simkit.Scheduler{R: r, MaxSteps: 150 + c.Msgs*120, Collect: w.collect, Invariant: w.sync,
 			StepTime: func() time.Duration {
 				if r.Tape.Chance(1, 8) {
 					return 0
@@ -634,7 +887,7 @@ func runDeliverSim(t *testing.T, r *simkit.Run) {
 		for _, v := range r.Faults {
 			nf += v
 		}
-		r.Nontrivial = w.accepted > 0 && (nf > 0 || w.overlap)
+		r.Nontrivial = w.accepted > 0 && (nf > 0 || w.overlap || w.split)
 	})
 }
 
@@ -642,8 +895,8 @@ func (w *dsWorld) build() {
 	c := w.cfg
 	tp := w.r.Tape
 	for i := 1; i <= c.N; i++ {
-		n := &dsNode{id: uint64(i), results: map[ObservationResult]int{}}
-		opts := RuntimeOptions{
+		n := &dsNode{id: uint64(i), results: map[rd.ObservationResult]int{}}
+		opts := rd.RuntimeOptions{
 			LocalNodeID: n.id, Presence: &dsPresence{w, n}, RemoteOwnerPusher: &dsRemote{w, n}, SessionWriter: &dsWriter{w, n},
 			QueueSize: c.Queue, Workers: c.Workers, PlanTimeout: c.PlanTO, OwnerPushBatchSize: c.OwnerBatch, OwnerConcurrency: c.OwnerConc,
 			RetryMaxAttempts: c.RetryMax, RetryInitialBackoff: time.Millisecond, RetryMaxBackoff: 4 * time.Millisecond,
@@ -652,7 +905,7 @@ func (w *dsWorld) build() {
 		if c.OfflineObs {
 			opts.OfflineRecipientsObserver = &dsOffline{w, n}
 		}
-		n.rt = NewRuntime(opts)
+		n.rt = rd.NewRuntime(opts)
 		if err := n.rt.Start(context.Background()); err != nil {
 			w.r.Infra("start n%d: %v", i, err)
 			return
@@ -665,7 +918,7 @@ func (w *dsWorld) build() {
 	for u := 0; u < c.Users; u++ {
 		uid := fmt.Sprintf("u%d", u)
 		w.users = append(w.users, uid)
-		ns := tp.Weighted([]int{4, 3, 1, 1}) // 1,2,3 sessions or none
+		ns := tp.Weighted([]int{4, 3, 1, 2}) // 1,2,3 sessions or none
 		if ns == 3 {
 			ns = -1
 		}
@@ -688,7 +941,7 @@ func (w *dsWorld) build() {
 	}
 	srcs := []string{}
 	for _, ch := range w.chans {
-		srcs = append(srcs, fmt.Sprintf("%s<-n%d(shard %d)", ch.id, ch.src.id, ch.src.rt.queue.shardIndex(onlinedelivery.RecipientDeliveryPlan{Event: channelappendcontract.CommittedEnvelope{ChannelID: ch.id, ChannelType: 2}})))
+		srcs = append(srcs, fmt.Sprintf("%s<-n%d", ch.id, ch.src.id))
 	}
 	w.r.Logf("world: sessions=%v channels=%v", parts, srcs)
 }
@@ -712,115 +965,79 @@ func (w *dsWorld) sessionCurrent(node uint64, r onlinedelivery.Route) bool {
 	return false
 }
 
-func (w *dsWorld) targetOf(user int, planID int) authority.Target {
-	slot := uint16(user % 3)
-	return authority.Target{HashSlot: slot, SlotID: uint32(slot) + 1, LeaderNodeID: uint64(1 + int(slot)%w.cfg.N), LeaderTerm: 3, ConfigEpoch: 2, RouteRevision: 9,
-		AuthorityEpoch: uint64(planID)}
-}
-
-// newMessage draws one message for a channel and splits it into plans the way
-// the producer does: recipients grouped by exact target in first-seen order,
-// at most Batch recipient rows per plan.
-func (w *dsWorld) newMessage(ch *dsChan) {
+// newMessage draws one committed message and its recipient rows: between one
+// row and about 2.5 times the recipient batch size, duplicates included.
+func (w *dsWorld) newMessage(ch *dsChan, faults bool) *dsMsg {
 	tp := w.r.Tape
 	c := w.cfg
 	w.msgsLeft--
-	ch.msgs++
 	w.nextMsg++
-	durable := !(c.Transient > 0 && tp.Chance(c.Transient, 8))
-	ev := channelappendcontract.CommittedEnvelope{MessageID: w.nextMsg, ChannelID: ch.id, ChannelType: 2, ClientMsgNo: fmt.Sprintf("m%d", w.nextMsg), Payload: []byte("x")}
-	mode := onlinedelivery.ModeTransient
-	if durable {
+	m := &dsMsg{idx: len(w.msgs), chIdx: ch.idx, src: ch.src.id, msgID: w.nextMsg, rows: map[string]int{}, presRows: map[string]int{}, bad: map[string]bool{}}
+	m.durable = !(c.Transient > 0 && tp.Chance(c.Transient, 8))
+	m.ev = CommittedEnvelope{MessageID: w.nextMsg, ChannelID: ch.id, ChannelType: 2, ClientMsgNo: fmt.Sprintf("c%d", w.nextMsg), Payload: []byte("x"),
+		Topic: fmt.Sprintf("m%d", m.idx)}
+	if m.durable {
 		ch.seq++
-		ev.MessageSeq = ch.seq
-		mode = onlinedelivery.ModeDurable
+		m.ev.MessageSeq = ch.seq
+		m.seq = ch.seq
 	}
 	from := tp.Intn(c.Users + 1)
 	if from < c.Users {
-		ev.FromUID = w.users[from]
-		if ss := w.sessionsOf(ev.FromUID); len(ss) > 0 && tp.Intn(3) != 0 {
+		m.ev.FromUID = w.users[from]
+		if ss := w.sessionsOf(m.ev.FromUID); len(ss) > 0 && tp.Intn(3) != 0 {
 			s := ss[tp.Intn(len(ss))]
-			ev.SenderNodeID, ev.SenderSessionID = s.node, s.sid
+			m.ev.SenderNodeID, m.ev.SenderSessionID = s.node, s.sid
 		}
 	} else {
-		ev.FromUID = "sys"
+		m.ev.FromUID = "sys"
 	}
-	// recipient rows
-	var rows []int
-	for u := 0; u < c.Users; u++ {
-		if tp.Intn(4) != 0 {
-			rows = append(rows, u)
-			if c.DupBias > 0 && tp.Chance(c.DupBias, 10) {
-				rows = append(rows, u)
+	want := 1 + tp.Intn(2*c.Batch+c.Batch/2+1)
+	for len(m.raw) < want {
+		u := w.users[tp.Intn(c.Users)]
+		if m.rows[u] > 0 && !(c.DupBias > 0 && tp.Chance(c.DupBias, 6)) {
+			// a user already present: usually pick the next user not yet present
+			found := false
+			for _, o := range w.users {
+				if m.rows[o] == 0 {
+					u, found = o, true
+					break
+				}
+			}
+			if !found && c.DupBias == 0 {
+				break
 			}
 		}
-	}
-	if len(rows) == 0 {
-		rows = []int{tp.Intn(c.Users)}
-	}
-	// group by target slot in first-seen order
-	var order []int
-	groups := map[int][]int{}
-	for _, u := range rows {
-		slot := u % 3
-		if _, ok := groups[slot]; !ok {
-			order = append(order, slot)
+		m.rows[u]++
+		uid := u
+		if tp.Chance(1, 12) {
+			uid = " " + u + " " // the producer trims recipient uids
+			w.r.Probe("recipient_uid_needs_trim")
 		}
-		groups[slot] = append(groups[slot], u)
-	}
-	var cur *dsPlan
-	remaining := 0
-	flush := func() {
-		if cur != nil && cur.plan.RecipientCount() > 0 {
-			ch.queue = append(ch.queue, cur)
-		}
-		cur = nil
-	}
-	for _, slot := range order {
-		us := groups[slot]
-		for len(us) > 0 {
-			if cur == nil || remaining == 0 {
-				flush()
-				id := len(w.plans)
-				e := ev
-				e.Topic = fmt.Sprintf("p%d", id)
-				cur = &dsPlan{id: id, chIdx: ch.idx, src: ch.src.id, durable: durable, seq: ev.MessageSeq, msgID: ev.MessageID,
-					plan:   onlinedelivery.RecipientDeliveryPlan{Mode: mode, Event: e},
-					routes: map[string]*dsRouteAcct{}, expectOff: map[string]bool{}, offGot: map[string]int{}, bad: map[string]bool{}}
-				w.plans = append(w.plans, cur)
-				remaining = c.Batch
-			}
-			n := remaining
-			if n > len(us) {
-				n = len(us)
-			}
-			rcs := make([]channelappendcontract.Recipient, 0, n)
-			for _, u := range us[:n] {
-				rcs = append(rcs, channelappendcontract.Recipient{UID: w.users[u], JoinSeq: 1})
-			}
-			cur.plan.Targets = append(cur.plan.Targets, onlinedelivery.RecipientTargetBatch{Target: w.targetOf(slot, cur.id), Recipients: rcs})
-			us = us[n:]
-			remaining -= n
+		m.raw = append(m.raw, Recipient{UID: uid, JoinSeq: 1})
+		if tp.Chance(1, 16) {
+			m.raw = append(m.raw, Recipient{UID: " "}) // blank rows are dropped by the producer
+			w.r.Probe("blank_recipient_row")
 		}
 	}
-	flush()
-	ids := []string{}
-	for _, p := range ch.queue {
-		ids = append(ids, fmt.Sprintf("p%d%s", p.id, dsPlanRows(p)))
-	}
-	w.r.Logf("  message m%d on %s seq=%d durable=%v from=%s sender=n%d/s%d plans=%v", ev.MessageID, ch.id, ev.MessageSeq, durable, ev.FromUID, ev.SenderNodeID, ev.SenderSessionID, ids)
-}
-
-func dsPlanRows(p *dsPlan) string {
-	parts := []string{}
-	for _, tg := range p.plan.Targets {
-		us := []string{}
-		for _, rc := range tg.Recipients {
-			us = append(us, rc.UID)
+	m.entry = tp.Weighted([]int{4, 3, 2, 1})
+	if m.entry == 3 {
+		for _, rc := range m.raw {
+			m.ev.MessageScopedUIDs = append(m.ev.MessageScopedUIDs, rc.UID)
 		}
-		parts = append(parts, fmt.Sprintf("t%d%v", tg.Target.HashSlot, us))
 	}
-	return strings.Join(parts, "")
+	if faults && c.FProducer && tp.Chance(1, 6) {
+		us := simkit.SortedKeys(m.rows)
+		m.authErr = us[tp.Intn(len(us))]
+		w.r.Fault("recipient_authority_lookup_error")
+	}
+	w.msgs = append(w.msgs, m)
+	rows := []string{}
+	for _, rc := range m.raw {
+		rows = append(rows, fmt.Sprintf("%q", rc.UID))
+	}
+	w.r.Logf("  message m%d id=%d on %s seq=%d durable=%v from=%s sender=n%d/s%d entry=%d rows=%v autherr=%q", m.idx, m.msgID, ch.id, m.seq, m.durable,
+		m.ev.FromUID, m.ev.SenderNodeID, m.ev.SenderSessionID, m.entry, rows, m.authErr)
+	return m
 }
 
 // ---- client operations --------------------------------------------------------
@@ -837,19 +1054,42 @@ func (w *dsWorld) startOp(op *dsOp, run func() error) {
 	}()
 }
 
-func (w *dsWorld) startEnqueue(ch *dsChan, timeout time.Duration) {
-	p := ch.queue[0]
-	ch.queue = ch.queue[1:]
+// startDispatch hands one committed message to the real recipient dispatch.
+func (w *dsWorld) startDispatch(ch *dsChan, m *dsMsg) {
 	ch.busy = true
-	p.enq = 1
-	p.gen = ch.src.gen
-	rt := ch.src.rt
-	plan := p.plan
-	w.r.Logf("  enqueue p%d on n%d (%s seq %d) timeout=%v", p.id, ch.src.id, ch.id, p.seq, timeout)
-	w.startOp(&dsOp{kind: "enq", node: ch.src, plan: p, timeout: timeout}, func() error {
-		ctx, cancel := context.WithTimeout(context.Background(), timeout)
+	n := ch.src
+	c := w.cfg
+	base := &dsAuthResolver{w: w, m: m}
+	var resolver RecipientAuthorityResolver = base
+	if c.BatchAuth {
+		resolver = dsBatchAuthResolver{base}
+	}
+	ports := commitPorts{
+		subscribers:                &dsSubscribers{w: w, n: n, m: m},
+		recipientAuthorityResolver: resolver,
+		deliveryEnqueuer:           &dsEnqueuer{w: w, n: n, m: m},
+		subscriberPageSize:         c.PageSize,
+		recipientBatchSize:         c.Batch,
+	}
+	mode := onlinedelivery.ModeTransient
+	if m.durable {
+		mode = onlinedelivery.ModeDurable
+	}
+	ev := m.ev
+	raw := append([]Recipient(nil), m.raw...)
+	target := AuthorityTarget{ChannelID: ChannelID{ID: ev.ChannelID, Type: ev.ChannelType}, LeaderNodeID: n.id, Epoch: 1, LeaderEpoch: 1, SubscriberMutationVersion: uint64(m.idx + 1)}
+	w.startOp(&dsOp{kind: "dispatch", node: n, msg: m, timeout: 10 * time.Second}, func() error {
+		ctx, cancel := context.WithTimeout(context.Background(), 10*time.Second)
 		defer cancel()
-		return rt.EnqueueRecipientDeliveryPlan(ctx, plan)
+		switch m.entry {
+		case 0:
+			_, err := dispatchRecipientSetResultForMode(ctx, mode, ev, raw, ports)
+			return err
+		case 1:
+			target.Large = true
+		}
+		_, err := dispatchRecipientsForTarget(ctx, mode, target, ev, subscriberCache{}, ports)
+		return err
 	})
 }
 
@@ -885,7 +1125,7 @@ func (w *dsWorld) doStart(n *dsNode) {
 		}
 		n.state = 1
 		w.dropAcksOf(n.id, 0, "")
-	case errors.Is(err, ErrRuntimeClosed) && n.state != 0:
+	case errors.Is(err, rd.ErrRuntimeClosed) && n.state != 0:
 		w.r.Fault("start_while_closing")
 	default:
 		w.r.FailSig("lifecycle", "start", fmt.Sprintf("Start on n%d in harness state %d returned %v", n.id, n.state, err), nil)
@@ -910,6 +1150,14 @@ func (w *dsWorld) fail(class, sig, detail string) {
 	w.r.FailSig(class, sig, detail, nil)
 }
 
+func (w *dsWorld) allPlans() []*dsPlan {
+	var out []*dsPlan
+	for _, m := range w.msgs {
+		out = append(out, m.plans...)
+	}
+	return out
+}
+
 // sync runs at every quiescent state: completions, plan ends, arrivals, and
 // all counter-based checks.
 func (w *dsWorld) sync() {
@@ -926,10 +1174,26 @@ func (w *dsWorld) sync() {
 		w.onOpDone(op)
 	}
 	running := 0
-	for _, p := range w.plans {
+	plans := w.allPlans()
+	for _, p := range plans {
+		if p.enq != 1 && !p.enqLogged {
+			p.enqLogged = true
+			w.r.Logf("  enqueue %s -> %v", p.name(), p.err)
+			switch {
+			case p.err == nil:
+				w.r.Probe("plan_accepted")
+			case errors.Is(p.err, rd.ErrRuntimeClosed):
+				w.r.Probe("enqueue_rejected_closed")
+			case errors.Is(p.err, context.DeadlineExceeded), errors.Is(p.err, context.Canceled):
+				w.r.Probe("enqueue_timed_out_on_full_queue")
+			default:
+				w.fail("lifecycle", "enqueue", fmt.Sprintf("enqueue of valid plan %s returned %v", p.name(), p.err))
+				return
+			}
+		}
 		if p.ended && !p.endedObserved {
 			p.endedObserved = true
-			w.r.Logf("  plan p%d ended deadline=%v", p.id, p.deadline)
+			w.r.Logf("  plan %s ended deadline=%v", p.name(), p.deadline)
 			if p.deadline {
 				w.r.Probe("plan_deadline_exceeded")
 			}
@@ -945,19 +1209,28 @@ func (w *dsWorld) sync() {
 	// arrivals, canonical order
 	pend := w.w.Pending()
 	now := make(map[*simkit.Parked]bool, len(pend))
+	queuedBehind := false
 	for _, pk := range pend {
 		now[pk] = true
 		if !w.seen[pk] {
 			w.r.Logf("  arrive %s", pk.Key)
 		}
+		if c := pk.Info.(*dsCall); c.kind == "enq" && c.plan.ord > 0 {
+			if prev := c.msg.plans[c.plan.ord-1]; prev.enq == 2 && !prev.answered {
+				queuedBehind = true
+			}
+		}
+	}
+	if queuedBehind {
+		w.r.Probe("producer_builds_next_plan_while_previous_unprocessed")
 	}
 	w.seen = now
 	for _, k := range simkit.SortedKeys(w.orphans) {
 		w.fail("push-to-unresolved-target", "unknown-plan", k)
 		return
 	}
-	for _, p := range w.plans {
-		w.checkPlanLocked(p)
+	for _, m := range w.msgs {
+		w.checkMsgLocked(m)
 		if w.r.Failed() {
 			return
 		}
@@ -972,20 +1245,61 @@ func (w *dsWorld) sync() {
 		st := []any{}
 		for _, id := range w.nodeIDs {
 			n := w.nodes[id]
-			st = append(st, n.state, n.rt.queue.Depth(), int(n.rt.inflight.Load()))
+			st = append(st, n.state, n.depth, n.running)
 		}
 		kinds := map[string]int{}
 		for _, pk := range pend {
 			kinds[pk.Info.(*dsCall).kind]++
 		}
-		st = append(st, kinds["pres"], kinds["req"], kinds["rsp"], kinds["write"], kinds["offl"], running)
+		st = append(st, kinds["enq"], kinds["subs"], kinds["pres"], kinds["req"], kinds["rsp"], kinds["write"], kinds["offl"], running)
 		w.r.State(st...)
 	}
 }
 
-// checkPlanLocked evaluates the upper-bound ("never more than") oracles.
-func (w *dsWorld) checkPlanLocked(p *dsPlan) {
-	tag := fmt.Sprintf("p%d (m%d %s seq %d)", p.id, p.msgID, w.chans[p.chIdx].id, p.seq)
+// checkMsgLocked evaluates the upper-bound ("never more than") oracles of a
+// message and of its plans.
+func (w *dsWorld) checkMsgLocked(m *dsMsg) {
+	mtag := fmt.Sprintf("m%d (id %d %s seq %d)", m.idx, m.msgID, w.chans[m.chIdx].id, m.seq)
+	for _, k := range simkit.SortedKeys(m.bad) {
+		w.fail("producer-plan-malformed", "", mtag+": "+k)
+		return
+	}
+	for _, u := range simkit.SortedKeys(m.presRows) {
+		if m.presRows[u] > m.rows[u] {
+			sig := "extra-row"
+			if m.rows[u] == 0 {
+				sig = "not-a-recipient"
+			}
+			w.fail("recipient-covered-twice", sig, fmt.Sprintf("%s: Online Delivery resolved recipient %q %d time(s) but the message has %d row(s) for it; plans as submitted %s, as processed %s",
+				mtag, u, m.presRows[u], m.rows[u], dsPlansRows(m, false), dsPlansRows(m, true)))
+			return
+		}
+	}
+	for _, p := range m.plans {
+		w.checkPlanLocked(p, mtag)
+		if w.r.Failed() {
+			return
+		}
+	}
+}
+
+func dsPlansRows(m *dsMsg, seen bool) string {
+	parts := []string{}
+	for _, p := range m.plans {
+		switch {
+		case !seen:
+			parts = append(parts, "["+dsTargetRows(p.snap)+"]")
+		case p.presCalls > 0:
+			parts = append(parts, "["+dsTargetRows(p.seen)+"]")
+		default:
+			parts = append(parts, "[-]")
+		}
+	}
+	return strings.Join(parts, "")
+}
+
+func (w *dsWorld) checkPlanLocked(p *dsPlan, mtag string) {
+	tag := fmt.Sprintf("%s of %s", p.name(), mtag)
 	for _, k := range simkit.SortedKeys(p.bad) {
 		w.fail("push-to-unresolved-target", "misrouted", tag+": "+k)
 		return
@@ -995,7 +1309,7 @@ func (w *dsWorld) checkPlanLocked(p *dsPlan) {
 		return
 	}
 	if p.altered {
-		w.fail("presence-targets-altered", "", tag+": the target groups handed to presence differ from the admitted plan's exact targets")
+		w.fail("presence-targets-altered", "", fmt.Sprintf("%s: the plan was admitted with %s but Online Delivery processed %s", tag, dsTargetRows(p.snap), dsTargetRows(p.seen)))
 		return
 	}
 	for _, k := range simkit.SortedKeys(p.routes) {
@@ -1019,7 +1333,7 @@ func (w *dsWorld) checkPlanLocked(p *dsPlan) {
 		}
 	}
 	if p.offCalls > 0 {
-		if !p.durable {
+		if !p.msg.durable {
 			w.fail("offline-for-transient", "", tag+": a transient plan reported offline recipients")
 			return
 		}
@@ -1033,7 +1347,7 @@ func (w *dsWorld) checkPlanLocked(p *dsPlan) {
 				return
 			}
 			if !p.expectOff[u] {
-				w.fail("offline-unexpected", "", fmt.Sprintf("%s: %s reported offline although presence resolved an online route for it (or its target failed, or it is no recipient)", tag, u))
+				w.fail("offline-unexpected", "", fmt.Sprintf("%s: %s reported offline although presence resolved an online route for it (or its target failed, or it is no recipient of the admitted plan %s)", tag, u, dsTargetRows(p.snap)))
 				return
 			}
 		}
@@ -1043,24 +1357,16 @@ func (w *dsWorld) checkPlanLocked(p *dsPlan) {
 func (w *dsWorld) onOpDone(op *dsOp) {
 	n := op.node
 	switch op.kind {
-	case "enq":
-		p := op.plan
-		w.chans[p.chIdx].busy = false
-		w.r.Logf("  op%d enqueue p%d -> %v", op.id, p.id, op.err)
-		switch {
-		case op.err == nil:
-			p.enq = 2
-			n.acceptedTotal++
-			w.r.Probe("plan_accepted")
-		case errors.Is(op.err, ErrRuntimeClosed):
-			p.enq = 3
-			w.r.Probe("enqueue_rejected_closed")
-		case errors.Is(op.err, context.DeadlineExceeded):
-			p.enq = 3
-			w.r.Probe("enqueue_timed_out_on_full_queue")
-		default:
-			p.enq = 3
-			w.fail("lifecycle", "enqueue", fmt.Sprintf("enqueue of valid plan p%d returned %v", p.id, op.err))
+	case "dispatch":
+		m := op.msg
+		w.chans[m.chIdx].busy = false
+		m.dispatched, m.dispatchErr = true, op.err
+		w.r.Logf("  op%d dispatch m%d -> %v plans=%s", op.id, m.idx, op.err, dsPlansRows(m, false))
+		if op.err != nil {
+			w.r.Probe("dispatch_failed")
+		} else if len(m.plans) > 1 {
+			w.split = true
+			w.r.Probe("message_split_into_several_plans")
 		}
 	case "stop":
 		n.lifeOp = nil
@@ -1069,7 +1375,7 @@ func (w *dsWorld) onOpDone(op *dsOp) {
 			// graceful budget exhausted: the runtime cancels accepted work
 			w.r.Probe("stop_timed_out")
 			n.genRelax = true
-			for _, p := range w.plans {
+			for _, p := range w.allPlans() {
 				if p.src == n.id && p.gen == n.gen && !p.endedObserved {
 					p.relaxed = true
 				}
@@ -1077,12 +1383,12 @@ func (w *dsWorld) onOpDone(op *dsOp) {
 			return
 		}
 		w.r.Probe("stop_ok")
-		for _, p := range w.plans {
+		for _, p := range w.allPlans() {
 			if p.src != n.id || p.gen != n.gen || p.enq != 2 || p.relaxed {
 				continue
 			}
 			if p.presCalls == 0 || !p.ended {
-				w.fail("stop-incomplete", "", fmt.Sprintf("Stop on n%d returned nil but accepted plan p%d (m%d) %s", n.id, p.id, p.msgID,
+				w.fail("stop-incomplete", "", fmt.Sprintf("Stop on n%d returned nil but accepted plan %s (id %d) %s", n.id, p.name(), p.msg.msgID,
 					map[bool]string{true: "never ran", false: "is still running"}[p.presCalls == 0]))
 				return
 			}
@@ -1093,7 +1399,7 @@ func (w *dsWorld) onOpDone(op *dsOp) {
 		n.lifeOp = nil
 		w.r.Logf("  op%d quiesce n%d -> %v", op.id, n.id, op.err)
 		if op.err != nil {
-			if errors.Is(op.err, ErrRuntimeClosed) {
+			if errors.Is(op.err, rd.ErrRuntimeClosed) {
 				w.r.Probe("quiesce_rejected_closed")
 			} else {
 				w.r.Probe("quiesce_wait_timed_out")
@@ -1101,12 +1407,12 @@ func (w *dsWorld) onOpDone(op *dsOp) {
 			return
 		}
 		w.r.Probe("quiesce_ok")
-		for _, p := range w.plans {
+		for _, p := range w.allPlans() {
 			if p.src != n.id || p.gen != n.gen || p.enq != 2 || p.relaxed {
 				continue
 			}
 			if p.presCalls == 0 || !p.ended {
-				w.fail("quiesce-incomplete", "plan", fmt.Sprintf("Quiesce on n%d returned nil but accepted plan p%d (m%d) has not finished", n.id, p.id, p.msgID))
+				w.fail("quiesce-incomplete", "plan", fmt.Sprintf("Quiesce on n%d returned nil but accepted plan %s (id %d) has not finished", n.id, p.name(), p.msg.msgID))
 				return
 			}
 		}
@@ -1122,9 +1428,10 @@ func (w *dsWorld) answerPresence(c *dsCall, faults bool) {
 	p := c.plan
 	tp := w.r.Tape
 	cfg := w.cfg
-	res := make([]TargetPresenceResult, len(p.plan.Targets))
+	targets := p.seen
+	res := make([]rd.TargetPresenceResult, len(targets))
 	desc := []string{}
-	for i, tg := range p.plan.Targets {
+	for i, tg := range targets {
 		if faults && cfg.FPresErr && tp.Chance(1, 8) {
 			res[i].Err = errDsPresence
 			w.r.Fault("presence_target_error")
@@ -1169,7 +1476,7 @@ func (w *dsWorld) answerPresence(c *dsCall, faults bool) {
 	}
 	c.answer = res
 	w.mu.Lock()
-	for i, tg := range p.plan.Targets {
+	for i, tg := range targets {
 		if i >= len(res) || res[i].Err != nil {
 			continue
 		}
@@ -1178,14 +1485,14 @@ func (w *dsWorld) answerPresence(c *dsCall, faults bool) {
 			online[rt.UID] = true
 			a := w.acct(p, rt)
 			a.unknown = false
-			if suppressSenderEcho(p.plan.Event, rt) {
+			if suppressSenderEcho(p.msg.ev, rt) {
 				a.suppressed = true
 				w.r.Probe("sender_echo_suppressed")
 			} else {
 				a.mult++
 			}
 		}
-		if p.durable && w.cfg.OfflineObs {
+		if p.msg.durable && w.cfg.OfflineObs {
 			for _, rc := range tg.Recipients {
 				if !online[rc.UID] {
 					p.expectOff[rc.UID] = true
@@ -1195,12 +1502,12 @@ func (w *dsWorld) answerPresence(c *dsCall, faults bool) {
 	}
 	p.answered = true
 	w.mu.Unlock()
-	w.r.Logf("  answer p%d: %s", p.id, strings.Join(desc, " "))
+	w.r.Logf("  answer %s: %s", p.name(), strings.Join(desc, " "))
 }
 
 // suppressSenderEcho is the documented echo rule: the sender's own connection
 // (same uid, owner node and session) does not get its message back.
-func suppressSenderEcho(ev channelappendcontract.CommittedEnvelope, rt onlinedelivery.Route) bool {
+func suppressSenderEcho(ev CommittedEnvelope, rt onlinedelivery.Route) bool {
 	return ev.FromUID != "" && ev.SenderNodeID != 0 && ev.SenderSessionID != 0 &&
 		rt.UID == ev.FromUID && rt.OwnerNodeID == ev.SenderNodeID && rt.SessionID == ev.SenderSessionID
 }
@@ -1208,6 +1515,7 @@ func suppressSenderEcho(ev channelappendcontract.CommittedEnvelope, rt onlinedel
 // deliverWrite is the instant a packet reaches the session: the order oracle.
 func (w *dsWorld) deliverWrite(c *dsCall) {
 	p := c.plan
+	m := p.msg
 	w.mu.Lock()
 	defer w.mu.Unlock()
 	a := w.acct(p, c.route)
@@ -1215,15 +1523,15 @@ func (w *dsWorld) deliverWrite(c *dsCall) {
 	a.lastRetry = false
 	w.accepted++
 	w.r.Probe("write_accepted")
-	if p.durable {
-		k := fmt.Sprintf("n%d/s%d/%s", c.node, c.route.SessionID, w.chans[p.chIdx].id)
-		if last := w.lastSeq[k]; p.seq < last {
-			w.fail("order-inversion", "", fmt.Sprintf("session s%d on n%d received %s seq %d (plan p%d, m%d) after seq %d", c.route.SessionID, c.node, w.chans[p.chIdx].id, p.seq, p.id, p.msgID, last))
+	if m.durable {
+		k := fmt.Sprintf("n%d/s%d/%s", c.node, c.route.SessionID, w.chans[m.chIdx].id)
+		if last := w.lastSeq[k]; m.seq < last {
+			w.fail("order-inversion", "", fmt.Sprintf("session s%d on n%d received %s seq %d (plan %s, id %d) after seq %d", c.route.SessionID, c.node, w.chans[m.chIdx].id, m.seq, p.name(), m.msgID, last))
 			return
 		}
-		w.lastSeq[k] = p.seq
+		w.lastSeq[k] = m.seq
 	}
-	ack := dsAck{node: c.node, uid: c.route.UID, sid: c.route.SessionID, mid: p.msgID}
+	ack := dsAck{node: c.node, uid: c.route.UID, sid: c.route.SessionID, mid: m.msgID}
 	for _, u := range w.unacked {
 		if u == ack {
 			return
@@ -1234,6 +1542,21 @@ func (w *dsWorld) deliverWrite(c *dsCall) {
 
 // ---- scheduler actions ----------------------------------------------------------
 
+// planPendingLocked: an admitted plan the runtime still has to finish.
+func (w *dsWorld) planPendingLocked(p *dsPlan) bool {
+	if p.enq == 1 {
+		return true
+	}
+	if p.enq != 2 || p.ended {
+		return false
+	}
+	n := w.nodes[p.src]
+	if p.presCalls == 0 && (p.relaxed || n.terminals >= n.acceptedTotal) {
+		return false // cancelled before it ran, or reported at the end as never-ran
+	}
+	return true
+}
+
 // quiet: everything was produced and every accepted plan finished.
 func (w *dsWorld) quiet() bool {
 	if len(w.inflight) > 0 || w.w.NumPending() > 0 || w.msgsLeft > 0 {
@@ -1241,13 +1564,8 @@ func (w *dsWorld) quiet() bool {
 	}
 	w.mu.Lock()
 	defer w.mu.Unlock()
-	for _, p := range w.plans {
-		if p.enq == 1 || (p.enq == 2 && !p.ended && !(p.relaxed && p.presCalls == 0)) {
-			return false
-		}
-	}
-	for _, ch := range w.chans {
-		if len(ch.queue) > 0 {
+	for _, p := range w.allPlans() {
+		if w.planPendingLocked(p) {
 			return false
 		}
 	}
@@ -1269,6 +1587,17 @@ func (w *dsWorld) collect() []simkit.Action {
 		pk := pk
 		call := pk.Info.(*dsCall)
 		switch call.kind {
+		case "subs":
+			add(0, "page "+pk.Key, 30, func() { w.w.Release(pk, dsSubsOK) })
+			if faults && c.FProducer {
+				add(5, "fail "+pk.Key, 2, func() { w.r.Fault("subscriber_page_error"); w.w.Release(pk, dsSubsErr) })
+			}
+		case "enq":
+			n := w.nodes[call.node]
+			add(0, "enqueue "+pk.Key, 20, func() { call.plan.gen = n.gen; w.w.Release(pk, dsEnqGo) })
+			if faults && c.FEnqTO {
+				add(5, "enqueue-short "+pk.Key, 2, func() { call.plan.gen = n.gen; w.r.Fault("enqueue_short_deadline"); w.w.Release(pk, dsEnqShort) })
+			}
 		case "pres":
 			add(0, "answer "+pk.Key, 40, func() { w.answerPresence(call, faults); w.w.Release(pk, dsPresAnswer) })
 			if faults && c.FPanic {
@@ -1335,29 +1664,19 @@ func (w *dsWorld) collect() []simkit.Action {
 	if w.final {
 		return acts
 	}
-	// producers: one enqueue in flight per channel, plans of a message in order
-	for _, ch := range w.chans {
-		ch := ch
-		if ch.busy {
-			continue
-		}
-		if len(ch.queue) == 0 {
-			if w.msgsLeft > 0 && ch.src.state == 1 {
-				add(1, fmt.Sprintf("produce %s", ch.id), 10, func() {
-					w.newMessage(ch)
-					w.startEnqueue(ch, 10*time.Second)
-				})
+	// post-commit callers: one dispatch in flight per channel, messages in sequence order
+	if w.msgsLeft > 0 {
+		for _, ch := range w.chans {
+			ch := ch
+			if ch.busy {
+				continue
 			}
-			continue
-		}
-		switch {
-		case ch.src.state == 1:
-			add(1, fmt.Sprintf("enqueue %s", ch.id), 14, func() { w.startEnqueue(ch, 10*time.Second) })
-			if faults && c.FEnqTO {
-				add(5, fmt.Sprintf("enqueue-short %s", ch.id), 2, func() { w.r.Fault("enqueue_short_deadline"); w.startEnqueue(ch, 2*time.Millisecond) })
+			switch {
+			case ch.src.state == 1:
+				add(1, fmt.Sprintf("dispatch %s", ch.id), 12, func() { w.startDispatch(ch, w.newMessage(ch, faults)) })
+			case faults && c.FLifecycle:
+				add(6, fmt.Sprintf("dispatch-closed %s", ch.id), 1, func() { w.r.Fault("dispatch_while_not_open"); w.startDispatch(ch, w.newMessage(ch, faults)) })
 			}
-		case faults && c.FLifecycle:
-			add(6, fmt.Sprintf("enqueue-closed %s", ch.id), 1, func() { w.r.Fault("enqueue_while_not_open"); w.startEnqueue(ch, 10*time.Second) })
 		}
 	}
 	// lifecycle
@@ -1397,8 +1716,8 @@ func (w *dsWorld) collect() []simkit.Action {
 		if w.nodes[a.node].state == 3 {
 			weight = 8
 		}
-		add(2, fmt.Sprintf("recvack n%d %s/s%d m%d", a.node, a.uid, a.sid, a.mid), weight, func() {
-			_ = w.nodes[a.node].rt.Recvack(context.Background(), Recvack{UID: a.uid, SessionID: a.sid, MessageID: a.mid})
+		add(2, fmt.Sprintf("recvack n%d %s/s%d id%d", a.node, a.uid, a.sid, a.mid), weight, func() {
+			_ = w.nodes[a.node].rt.Recvack(context.Background(), rd.Recvack{UID: a.uid, SessionID: a.sid, MessageID: a.mid})
 			k := 0
 			for _, u := range w.unacked {
 				if u != a {
@@ -1420,7 +1739,7 @@ func (w *dsWorld) collect() []simkit.Action {
 					w.churnLeft--
 					w.r.Fault("session_closed")
 					s.open = false
-					_ = w.nodes[s.node].rt.SessionClosed(context.Background(), SessionClosed{UID: s.uid, SessionID: s.sid})
+					_ = w.nodes[s.node].rt.SessionClosed(context.Background(), rd.SessionClosed{UID: s.uid, SessionID: s.sid})
 					w.dropAcksOf(s.node, s.sid, s.uid)
 				})
 				add(6, fmt.Sprintf("session-regen s%d", s.sid), 1, func() { w.churnLeft--; w.r.Fault("session_generation_bumped"); s.seq++ })
@@ -1445,15 +1764,8 @@ func (w *dsWorld) collect() []simkit.Action {
 func (w *dsWorld) plansSettled() bool {
 	w.mu.Lock()
 	defer w.mu.Unlock()
-	for _, p := range w.plans {
-		if p.enq == 1 {
-			return false
-		}
-		if p.enq == 2 && !p.ended {
-			n := w.nodes[p.src]
-			if p.presCalls == 0 && (p.relaxed || n.state == 0 || n.terminals >= n.acceptedTotal) {
-				continue // cancelled before it ran, or reported below as never-ran
-			}
+	for _, p := range w.allPlans() {
+		if w.planPendingLocked(p) {
 			return false
 		}
 	}
@@ -1524,15 +1836,15 @@ func (w *dsWorld) finalPhase() {
 	}
 	w.mu.Lock()
 	defer w.mu.Unlock()
-	for _, p := range w.plans {
-		w.finalCheckLocked(p)
+	for _, m := range w.msgs {
+		w.finalCheckLocked(m)
 		if r.Failed() {
 			return
 		}
 	}
 	for _, id := range w.nodeIDs {
 		n := w.nodes[id]
-		for _, k := range []ObservationResult{ObservationResultOK, ObservationResultRetryExhausted, ObservationResultTimeout, ObservationResultCanceled, ObservationResultPanic, ObservationResultError} {
+		for _, k := range []rd.ObservationResult{rd.ObservationResultOK, rd.ObservationResultRetryExhausted, rd.ObservationResultTimeout, rd.ObservationResultCanceled, rd.ObservationResultPanic, rd.ObservationResultError} {
 			r.ProbeN("terminal_"+string(k), n.results[k])
 		}
 	}
@@ -1541,51 +1853,80 @@ func (w *dsWorld) finalPhase() {
 func (w *dsWorld) sweepAcks(n *dsNode) {
 	for _, s := range w.sessions {
 		if s.node == n.id {
-			_ = n.rt.SessionClosed(context.Background(), SessionClosed{UID: s.uid, SessionID: s.sid})
+			_ = n.rt.SessionClosed(context.Background(), rd.SessionClosed{UID: s.uid, SessionID: s.sid})
 		}
 	}
 	w.dropAcksOf(n.id, 0, "")
 }
 
-// finalCheckLocked evaluates the lower-bound ("at least") oracles on a plan
-// whose processing is over and was not cut short by a deadline or a forced stop.
-func (w *dsWorld) finalCheckLocked(p *dsPlan) {
-	if p.enq != 2 || p.relaxed {
-		return
-	}
-	tag := fmt.Sprintf("p%d (m%d %s seq %d)", p.id, p.msgID, w.chans[p.chIdx].id, p.seq)
-	n := w.nodes[p.src]
-	if p.presCalls == 0 {
-		if n.genRelax && p.gen == n.gen {
-			return
-		}
-		w.fail("accepted-plan-never-ran", "", tag+": admission succeeded but the plan was never processed although its runtime drained or stopped")
-		return
-	}
-	if !p.ended || p.deadline || !p.answered {
-		return
-	}
-	w.r.Probe("plan_fully_checked")
-	for _, k := range simkit.SortedKeys(p.routes) {
-		a := p.routes[k]
-		if a.mult == 0 {
+// finalCheckLocked evaluates the lower-bound ("at least") oracles: per plan
+// whose processing was not cut short by a deadline or a forced stop, and per
+// message whose dispatch succeeded and all of whose plans were processed.
+func (w *dsWorld) finalCheckLocked(m *dsMsg) {
+	mtag := fmt.Sprintf("m%d (id %d %s seq %d)", m.idx, m.msgID, w.chans[m.chIdx].id, m.seq)
+	whole := m.dispatched && m.dispatchErr == nil
+	for _, p := range m.plans {
+		if p.enq != 2 {
+			whole = false
 			continue
 		}
-		if a.attempts < a.mult {
-			w.fail("route-not-pushed", "", fmt.Sprintf("%s: presence resolved route %s %d time(s) but only %d push attempt(s) were made and the plan finished", tag, k, a.mult, a.attempts))
+		if p.relaxed {
+			whole = false
+			continue
+		}
+		tag := fmt.Sprintf("%s of %s", p.name(), mtag)
+		n := w.nodes[p.src]
+		if p.presCalls == 0 {
+			whole = false
+			if n.genRelax && p.gen == n.gen {
+				continue
+			}
+			w.fail("accepted-plan-never-ran", "", tag+": admission succeeded but the plan was never processed although its runtime drained or stopped")
 			return
 		}
-		if a.mult == 1 && a.lastRetry && a.attempts < w.cfg.RetryMax {
-			w.fail("retry-abandoned", "", fmt.Sprintf("%s: route %s was left retryable after %d of %d attempts although the plan was neither cancelled nor timed out", tag, k, a.attempts, w.cfg.RetryMax))
-			return
+		if !p.ended {
+			whole = false
+			continue
 		}
-	}
-	if w.cfg.OfflineObs && p.durable {
-		for _, u := range simkit.SortedKeys(p.expectOff) {
-			if p.offGot[u] == 0 {
-				w.fail("offline-missing", "", fmt.Sprintf("%s: recipient %s had no online route in its resolved target but was never reported offline", tag, u))
+		if p.deadline || !p.answered {
+			// every row reached presence; what happened afterwards is excused
+			continue
+		}
+		w.r.Probe("plan_fully_checked")
+		for _, k := range simkit.SortedKeys(p.routes) {
+			a := p.routes[k]
+			if a.mult == 0 {
+				continue
+			}
+			if a.attempts < a.mult {
+				w.fail("route-not-pushed", "", fmt.Sprintf("%s: presence resolved route %s %d time(s) but only %d push attempt(s) were made and the plan finished", tag, k, a.mult, a.attempts))
 				return
 			}
+			if a.mult == 1 && a.lastRetry && a.attempts < w.cfg.RetryMax {
+				w.fail("retry-abandoned", "", fmt.Sprintf("%s: route %s was left retryable after %d of %d attempts although the plan was neither cancelled nor timed out", tag, k, a.attempts, w.cfg.RetryMax))
+				return
+			}
+		}
+		if w.cfg.OfflineObs && m.durable {
+			for _, u := range simkit.SortedKeys(p.expectOff) {
+				if p.offGot[u] == 0 {
+					w.fail("offline-missing", "", fmt.Sprintf("%s: recipient %s had no online route in its resolved target but was never reported offline", tag, u))
+					return
+				}
+			}
+		}
+	}
+	if !whole {
+		return
+	}
+	// message-level coverage: the rows of the committed message are exactly the
+	// rows Online Delivery resolved (each then pushed or reported offline above)
+	w.r.Probe("message_coverage_checked")
+	for _, u := range simkit.SortedKeys(m.rows) {
+		if m.presRows[u] < m.rows[u] {
+			w.fail("recipient-not-covered", "", fmt.Sprintf("%s: recipient %q has %d row(s) in the committed message but Online Delivery resolved it %d time(s): it was neither pushed nor reported offline; plans as submitted %s, as processed %s",
+				mtag, u, m.rows[u], m.presRows[u], dsPlansRows(m, false), dsPlansRows(m, true)))
+			return
 		}
 	}
 }
@@ -1604,7 +1945,7 @@ func (w *dsWorld) teardown() {
 			}
 			for _, s := range w.sessions {
 				if s.node == id {
-					_ = n.rt.SessionClosed(context.Background(), SessionClosed{UID: s.uid, SessionID: s.sid})
+					_ = n.rt.SessionClosed(context.Background(), rd.SessionClosed{UID: s.uid, SessionID: s.sid})
 				}
 			}
 			ctx, cancel := context.WithTimeout(context.Background(), 2*time.Second)
